@@ -802,6 +802,31 @@ def sarr_isnan(a):
     return companion_view(a, "nan")
 
 
+def _gradient(f, varargs, axis, edge_order):
+    """np.gradient along one axis with a scalar spacing h and edge_order=1: central differences (f[i+1]-f[i-1])/(2h) inside,
+    one-sided (f[1]-f[0])/h and (f[n-1]-f[n-2])/h at the two ends (needs n >= 2)"""
+    if edge_order != 1 or axis is None or isinstance(axis, (tuple, list)) or len(varargs) > 1:
+        raise core.Unsupported("np.gradient: only one axis, scalar spacing, edge_order=1 are modelled")
+    h = core.SymReal._r(varargs[0]) if varargs else z3.RealVal(1)
+    if varargs and isinstance(varargs[0], (SArr, np.ndarray)) and getattr(varargs[0], "ndim", 0):
+        raise core.Unsupported("np.gradient with coordinate arrays")
+    ax = int(axis) % f.ndim
+    n = f.shape[ax]
+    if f.log is not None:
+        f.log.add("np.gradient needs at least two points along the axis", core._wrapb(_z(n) >= 2))
+
+    def at(idx, f=f, ax=ax, n=n, h=h):
+        def sh(d):
+            j = list(idx)
+            j[ax] = idx[ax] + d
+            return f._at(tuple(j))
+
+        i = idx[ax]
+        return z3.If(i == 0, (sh(1) - sh(0)) / h, z3.If(i == _z(n) - 1, (sh(0) - sh(-1)) / h, (sh(1) - sh(-1)) / (2 * h)))
+
+    return f._derive(f.shape, at)
+
+
 def _where(cond, x, y):
     """np.where(cond, x, y) with broadcasting; the NaN-companion form (where(valid(v), v, c)) keeps its structured meaning"""
     if x is None or y is None:
@@ -925,6 +950,7 @@ _NP_FUNCS = dict(
     diag=lambda v, k=0: _diag(v, k),
     asfortranarray=lambda a, dtype=None, like=None: a,
     where=lambda cond, x=None, y=None: _where(cond, x, y),
+    gradient=lambda f, *varargs, axis=None, edge_order=1: _gradient(f, varargs, axis, edge_order),
     can_cast=lambda from_, to, casting="safe": np.can_cast(from_.dtype if isinstance(from_, SArr) and from_.dtype is not None else np.float64, to, casting=casting),
     empty_like=lambda a, dtype=None, order="K", subok=True, shape=None: _empty_like(a, shape),
     sliding_window_view=lambda x, window_shape, axis=None, **k: _sliding_window_view(x, window_shape, axis),
